@@ -469,7 +469,7 @@ def run(ctx):
 
     # ---- 2. scenarios
     scenarios = []
-    for _ in range(ctx.n(3000, 30000)):
+    for _ in range(ctx.n(8000, 60000)):
         h, w = ctx.rng.randrange(1, 6), ctx.rng.randrange(1, 4)
         k = ctx.rng.choice([1, 1, 2, 2, 3])
         prof = ctx.rng.choice(['mixed', 'mixed', 'mixed', 'text', 'num'])
@@ -643,7 +643,7 @@ def run(ctx):
 
     # ---- oracle 2: "=x" and "<>x" partition the range
     operands = [str(n) for n in (0, 1, 2, 2.5, 10, -1, 5)] + WORDS + ODDTEXT + WILD + ['~*', 'a.']
-    for _ in range(ctx.n(1500, 15000)):
+    for _ in range(ctx.n(4000, 30000)):
         h, w = ctx.rng.randrange(1, 6), ctx.rng.randrange(1, 4)
         rg = rnd_range(ctx, h, w, ctx.rng.choice(['mixed', 'mixed', 'text', 'num']))
         cells = [x for row in rg for x in row]
